@@ -129,7 +129,13 @@ fn compare_by_token_amounts(pre: &Ledger, post: &Ledger, ix: &Ix, idx: usize, co
     d.extend_from_slice(&liq.to_le_bytes());
     d.extend_from_slice(&max_a.to_le_bytes());
     d.extend_from_slice(&max_b.to_le_bytes());
-    d.push(0);
+    // the remaining-accounts description (transfer-hook slices) follows the method: tag, two u64, two u128
+    let tail = 8 + 1 + 8 + 8 + 16 + 16;
+    if ix.data.len() > tail {
+        d.extend_from_slice(&ix.data[tail..]);
+    } else {
+        d.push(0);
+    }
     twin_ix.data = d;
     let (ao, apost) = rt::exec_ix_anchor_twin(pre, &twin_ix, &ExecOpts::default());
     cov.eval(format!("increase_liquidity_by_token_amounts_v2|twin={}", if ao.ok() { "ok".to_string() } else { format!("{:#x}", ao.code.min(0xffff_ffff)) }));
